@@ -21,6 +21,8 @@ pub struct LibRun {
     pub end: LibEnd,
     /// stacks held by the interpreter object after the run stopped
     pub final_stacks: (Stack, Stack),
+    /// when the run stopped on an error: does run() on the same interpreter afterwards report completion?
+    pub rerun_after_error_ok: Option<bool>,
 }
 
 pub const STEP_CAP: usize = 100_000;
@@ -30,7 +32,7 @@ pub fn lib_run_script(script: &Script) -> LibRun {
     let mut executed = vec![];
     let mut interp = match guard(|| Interpreter::from_script(script)) {
         Ok(i) => i,
-        Err(p) => return LibRun { parse_err: None, states, executed, end: LibEnd::Panic(p), final_stacks: (vec![], vec![]) },
+        Err(p) => return LibRun { parse_err: None, states, executed, end: LibEnd::Panic(p), final_stacks: (vec![], vec![]), rerun_after_error_ok: None },
     };
     let mut end = LibEnd::StepCap;
     for _ in 0..STEP_CAP {
@@ -55,14 +57,15 @@ pub fn lib_run_script(script: &Script) -> LibRun {
     }
     let st = guard(|| interp.state()).ok();
     let final_stacks = st.map(|s| (s.stack.clone(), s.alt_stack.clone())).unwrap_or_default();
-    LibRun { parse_err: None, states, executed, end, final_stacks }
+    let rerun_after_error_ok = if matches!(end, LibEnd::Err(_)) { guard(|| interp.run().is_ok()).ok() } else { None };
+    LibRun { parse_err: None, states, executed, end, final_stacks, rerun_after_error_ok }
 }
 
 pub fn lib_run(bytes: &[u8]) -> LibRun {
     match guard(|| Script::from_bytes(bytes)) {
         Ok(Ok(s)) => lib_run_script(&s),
-        Ok(Err(e)) => LibRun { parse_err: Some(e.to_string()), states: vec![], executed: vec![], end: LibEnd::Err("parse".into()), final_stacks: (vec![], vec![]) },
-        Err(p) => LibRun { parse_err: Some(format!("panic: {}", p)), states: vec![], executed: vec![], end: LibEnd::Panic(p), final_stacks: (vec![], vec![]) },
+        Ok(Err(e)) => LibRun { parse_err: Some(e.to_string()), states: vec![], executed: vec![], end: LibEnd::Err("parse".into()), final_stacks: (vec![], vec![]), rerun_after_error_ok: None },
+        Err(p) => LibRun { parse_err: Some(format!("panic: {}", p)), states: vec![], executed: vec![], end: LibEnd::Panic(p), final_stacks: (vec![], vec![]), rerun_after_error_ok: None },
     }
 }
 
@@ -157,6 +160,8 @@ pub fn compare(tokens: &[Tok], reference: &Trace, lib: &LibRun) -> Option<Diverg
                 Some(Divergence { step: n, tok: *at, kind: "missing-error", detail: format!("reference fails at {} ({}); library returns a state: main={}", tokname(&tokens[*at]), why, show_stack(&lib.states[n].0)) })
             } else {
                 match &lib.end {
+                    // a failed script stays failed: run() on the same interpreter after the error must not report completion
+                    LibEnd::Err(_) if lib.rerun_after_error_ok == Some(true) => Some(Divergence { step: n, tok: *at, kind: "failure-not-sticky", detail: format!("the library fails at {} ({}) as the reference does, but run() on the same interpreter afterwards returns Ok", tokname(&tokens[*at]), why) }),
                     LibEnd::Err(_) => None,
                     LibEnd::Panic(p) => Some(Divergence { step: n, tok: *at, kind: "panic", detail: format!("reference fails cleanly at {} ({}); library panics: {}", tokname(&tokens[*at]), why, p) }),
                     LibEnd::Finished => Some(Divergence { step: n, tok: *at, kind: "missing-error", detail: format!("reference fails at {} ({}); library finishes without error", tokname(&tokens[*at]), why) }),
